@@ -251,6 +251,67 @@ class BufImpl(ImplBase):
         raise ValueError(op)
 
 
+class FleetImpl(BufImpl):
+    """FleetStore through the Fleet edge.  Kernel control is event by event: `ev` processes the next
+    fleet-internal kernel event (token and process-termination events in front of it are transparent),
+    `adv` only moves the clock up to (not beyond) the next pending event."""
+    def __init__(self, cap, delay, transit):
+        ImplBase.__init__(self)
+        from factorysimpy.edges.fleet import Fleet
+        self.family, self.mode = "fleet", "FIFO"
+        self.next_delay = 0
+        self.edge = Fleet(self.env, "F", capacity=int(cap), delay=t2f(int(delay)), transit_delay=t2f(int(transit)))
+        self.edge.src_node = _DummyNode("src"); self.edge.dest_node = _DummyNode("dst")
+        self.store = self.edge.inbuiltstore
+        self.api = self.edge
+        self.edge.ready_items = self.edge.get_ready_items
+        self.edge.occupancy = self.edge.get_occupancy
+        self.edge.update_final_buffer_avg_content = self.edge.update_final_fleet_avg_content
+        self.avail = []         # (item id, time) in the order items became retrievable
+        self._seen_ready = set()
+
+    def transparent(self, entry):
+        # reservation tokens, process-termination events and the left-over `until` event of run(until=T)
+        # (this SimPy re-schedules it with priority -1) have no effect on the store
+        t, prio, eid, event = entry
+        return prio == -1 or id(event) in self._tokid or isinstance(event, simpy.events.Process)
+
+    def next_time(self):
+        """time (ticks) of the next non-transparent event, or None"""
+        c = [(t, p, e) for (t, p, e, evt) in self.env._queue if not self.transparent((t, p, e, evt))]
+        return f2t(min(c)[0]) if c else None
+
+    def ev(self):
+        while self.env._queue:
+            entry = self.env._queue[0]
+            tr = self.transparent(entry)
+            self.env.step()
+            if not tr: break
+
+    def kernel_op(self, op):
+        k = op[0]
+        if k == "ev": self.ev(); return f"t={f2t(self.env.now)}"
+        if k == "adv": self.adv(op[1]); return "-"
+        if k in ("settle", "kstep"): raise ValueError("fleet histories use ev/adv")
+        return None
+
+    def do(self, op):
+        res = ImplBase.do(self, op)
+        if res is None or res.startswith("stat") or res.startswith("probe"): return res
+        new = []
+        for it in self.store.ready_items:
+            if id(it) not in self._seen_ready:
+                self._seen_ready.add(id(it)); new.append(it.hid)
+        return res + " | " + " ".join(map(str, new))
+
+    def dispatch(self, op):
+        if op[0] == "stat":
+            now = f2t(self.env.now)
+            n = len(self.store.items) + len(self.store.ready_items)
+            return f"stat {float(self.edge.stats['time_averaged_num_of_items_in_fleet'])!r} {n} {now}"
+        return BufImpl.dispatch(self, op)
+
+
 class PrqImpl:
     """PriorityReqStore: the harness is the only client; requests are SimPy events."""
     def __init__(self, cap):
@@ -310,6 +371,8 @@ def make_impl(header):
         return BufImpl(w[1], w[2], w[3])
     if w[1] == "prq":
         return PrqImpl(w[2])
+    if w[1] == "fleet":
+        return FleetImpl(w[2], w[3], w[4])
     raise ValueError(header)
 
 
